@@ -1,4 +1,5 @@
 import PsV.Proofs.Fit
+import PsV.Proofs.FitEntry
 /-!
 # C13 — fit rejects inconsistent arguments instead of corrupting memory
 
@@ -311,5 +312,326 @@ example : fitChecks repaired (CArgs.view ⟨good.data, [2, 0], good.knots, [true
 example : (cGlamfit repaired false false ⟨good.data, [2, 0], good.knots, [true, true], [0, 0], 1⟩ true none).1 = 0 ∧
     (cGlamfit repaired true false ⟨good.data, [2, 0], good.knots, [true, true], [0, 0], 1⟩ true none).1 = 1 ∧
     (cGlamfit repaired false false ⟨good.data, [2, 0], good.knots, [true, true], [0, 3], 1⟩ true none).1 = 1 := by decide
+
+
+/-! ## Integer widths: from the assumption `SizesFit` to the decidable predicate `NoWrapB`
+
+`fitBodyW` (Model/FitEntry.lean) is `fitBody` with the C integer types.  `NoWrapB a` is a decidable condition on the
+arguments alone.  Proved: it implies the former assumption; together with what the sanity block establishes it makes
+`fitBodyW` fall through; nothing after the sanity block throws an argument error; the sanity block does **not** imply
+it (`head_basis_counter_overflows`, confirmed on the real code: UBSan `signed integer overflow` in bsplinebasis,
+SIGSEGV in the as-shipped build); and its `bsplinebasis` clause cannot be dropped (`basis_clause_necessary`). -/
+
+/-- the former standing assumption follows from the decidable predicate -/
+theorem noWrap_imply_sizesFit (a : Args) (hw : NoWrapB a = true) : SizesFit a := by
+  obtain ⟨_, h, _⟩ := (noWrapB_iff a).mp hw
+  intro i hi
+  have := (h i hi).1
+  have hI : I32 < U32 := by simp [I32, U32]
+  omega
+
+/-- every spline count is positive once the sanity block has passed -/
+theorem needs_nspl_pos (a : Args) (hn : Needs a) : ∀ x ∈ (List.range a.data.ndim).map a.nsplAt, 0 < x := by
+  intro x hx
+  obtain ⟨i, hi, rfl⟩ := List.mem_map.mp hx
+  have hi' : i < a.data.ndim := List.mem_range.mp hi
+  have := hn.knots_len i hi'
+  show 0 < nsplinesOf (a.nkAt i) (a.ordAt i)
+  rw [nsplinesOf_eq (by omega)]; omega
+
+/-- **needs_noWrap_imply_safeW.**  Under `Needs` and the size condition, every array access, every stack-array bound
+    *and every `int`/`long` computation* of the modelled routines is in range, and no unsigned quantity wraps — for
+    all dimensions, orders, knot counts and grid sizes that satisfy the (decidable) condition. -/
+theorem needs_noWrap_imply_safeW (a : Args) (hwf : a.data.WF) (hn : Needs a) (hw : NoWrapB a = true) :
+    fitBodyW repaired a = .ok := by
+  have hpos := needs_nspl_pos a hn
+  obtain ⟨n1, n2, n3, n4, n5, n6, n7, n8, n9, n10, n11, n12, n13, n14⟩ := hn
+  obtain ⟨w1, w2, w3⟩ := (noWrapB_iff a).mp hw
+  have hw1 : wsub32 a.data.ndim 1 = a.data.ndim - 1 := wsub32_of_le n1
+  have hns : ∀ i, i < a.data.ndim → nsplinesOf (a.nkAt i) (a.ordAt i) = a.nkAt i - a.ordAt i - 1 :=
+    fun i hi => nsplinesOf_eq (by have := n10 i hi; omega)
+  simp only [fitBodyW, repaired, seqAll_cons_ok, seqAll_nil, forN_ok_iff, rd_ok_iff, when_ok_iff, inU32_ok_iff,
+    and_true, hw1]
+  refine ⟨w1, fun j hj => by omega, fun i hi => by omega, fun i hi => by omega, by omega,
+    fun i hi => ⟨by omega, by omega, by omega⟩, by omega, by omega, fun i hi => by omega, ?_, ?_, ?_, ?_⟩
+  · intro i hi
+    have := n10 i hi
+    rw [hns i hi]; exact ⟨by omega, by omega⟩
+  · intro i hi
+    refine ⟨penIdx_lt n12 hi, smoothIdx_lt n11 hi, fun _ => ?_⟩
+    have := n10 i hi
+    exact calcPenaltyW_ok (by simp) hi (by rw [range_map_getD _ hi]; exact hns i hi) this (n13 i hi) rfl (w2 i hi).1
+  · intro i hi
+    have := n10 i hi
+    exact ⟨by rw [hwf.ranges_len]; exact hi, bsplineBasisW_ok (by omega) (n6 i hi) (w2 i hi).1 (w2 i hi).2⟩
+  · intro hm
+    have hne : a.monodim ≠ noMonodim := by simpa using hm
+    exact monoTailW_ok _ _ (by simp only [List.length_map, List.length_range]; omega) hpos w3
+
+/-- … in terms of the validator: whatever the repaired sanity block accepts and satisfies the size condition is safe. -/
+theorem accepted_noWrap_imply_safeW (a : Args) (hwf : a.data.WF) (hc : fitChecks repaired a = .ok)
+    (hw : NoWrapB a = true) : fitBodyW repaired a = .ok :=
+  needs_noWrap_imply_safeW a hwf (checks_imply_needs a hc) hw
+
+/-- Nothing behind the sanity block throws an argument error (all `std::logic_error`s come first). -/
+theorem body_never_rejects (c : Cfg) (a : Args) (e : Err) : fitBodyW c a ≠ .reject e := noRej_fitBodyW c a e
+
+/-- Under the size condition the table holds the strides the `Nat` model says (no `uint64_t` product wrapped). -/
+theorem noWrap_shape_eq (a : Args) (hn : Needs a) (hw : NoWrapB a = true) : fitShapeW a = fitShape a := by
+  obtain ⟨_, _, w3⟩ := (noWrapB_iff a).mp hw
+  have hIU : I64 < U64 := by simp [I64, U64]
+  unfold fitShapeW
+  have : stridesOfW (fitShape a).naxes = (fitShape a).strides :=
+    stridesOfW_eq (by show ncoeffs a < U64; omega) (needs_nspl_pos a hn)
+  rw [this]
+
+/-- **basis_clause_necessary.**  The `bsplinebasis` clause of `NoWrapB` cannot be dropped: if in some dimension the
+    dense basis matrix has 2^31 or more cells, the `int` counter `k` of bsplinebasis overflows (or an earlier
+    statement already went wrong) although the sanity block accepted the arguments. -/
+theorem basis_clause_necessary (a : Args) (i : Nat) (hi : i < a.data.ndim)
+    (hbig : I32 ≤ a.rangeOf i * a.nsplAt i) : ∃ f, fitBodyW repaired a = .fault f := by
+  refine fault_of_not_ok (fun hok => ?_) (noRej_fitBodyW _ _)
+  simp only [fitBodyW, seqAll_cons_ok, seqAll_nil, forN_ok_iff] at hok
+  have := (hok.2.2.2.2.2.2.2.2.2.2.2.1 i hi).2.1
+  exact bsplineBasisW_not_ok hbig this
+
+/-- 1-d, order 0, 32770 knots `0..32769` (32769 basis functions), 65536 abscissae, one data point, no smoothing:
+    a consistent argument tuple whose dense basis matrix has 2^31 + 65536 cells (16 GiB). -/
+def wBigBasis : Args := uniArgs 1 32770 0 65536 noMonodim
+
+/-- **The sanity block does not imply the size condition** (finding, fixes/C13-7.diff): `wBigBasis` is accepted and
+    consistent, violates only the `bsplinebasis` clause, and the counter overflows.  On the real code: UBSan
+    `signed integer overflow: 2147483647 + 1 cannot be represented in type 'int'` at splineutil.c:125; the as-shipped
+    build dies with SIGSEGV (`basis->x[k]` with `k = -2^31`). -/
+theorem head_basis_counter_overflows :
+    wBigBasis.data.WF ∧ fitChecks repaired wBigBasis = .ok ∧ Needs wBigBasis ∧ NoWrapB wBigBasis = false ∧
+    fitBody repaired wBigBasis = .ok ∧ ∃ f, fitBodyW repaired wBigBasis = .fault f := by
+  have hc : fitChecks repaired wBigBasis = .ok := uni_checks (by omega) (by omega) (by omega) (Or.inl rfl)
+  have hn := checks_imply_needs _ hc
+  have h0 : (0 : Nat) < wBigBasis.data.ndim := by decide
+  have hr : wBigBasis.rangeOf 0 = 65536 := uni_rangeOf (by omega)
+  have hs : wBigBasis.nsplAt 0 = 32769 := uni_nsplAt (by omega) (by omega)
+  have hk : wBigBasis.nkAt 0 = 32770 := uni_nkAt (by omega)
+  have hbig : I32 ≤ wBigBasis.rangeOf 0 * wBigBasis.nsplAt 0 := by rw [hr, hs]; decide
+  refine ⟨uni_wf, hc, hn, ?_, ?_, basis_clause_necessary _ 0 h0 hbig⟩
+  · cases h : NoWrapB wBigBasis with
+    | false => rfl
+    | true =>
+      have := ((noWrapB_iff _).mp h).2.1 0 h0
+      omega
+  · refine needs_imply_safe _ uni_wf ?_ hn
+    intro i hi
+    have : i = 0 := by have : i < 1 := hi; omega
+    subst this; rw [hk]; decide
+
+/-- 8 dimensions with 256 basis functions each: consistent, accepted, and `ncoeffs = strides[0]*naxes[0]` wraps to 0 —
+    the table would describe 2^64 coefficients and own none.  (On the real code this call ends in "GLAM fit failed"
+    and an empty table, without a sanitizer report: the product clause of `NoWrapB` is sufficient, not necessary.) -/
+def wWrap : Args := uniArgs 8 257 0 1 noMonodim
+
+theorem head_ncoeffs_wraps :
+    fitChecks repaired wWrap = .ok ∧ ncoeffs wWrap = 2^64 ∧ ncoeffsW wWrap = 0 ∧ NoWrapB wWrap = false := by
+  have hc : fitChecks repaired wWrap = .ok := uni_checks (by omega) (by omega) (by omega) (Or.inl rfl)
+  have hn : ncoeffs wWrap = 2^64 := by
+    have : ncoeffs wWrap = (257 - 0 - 1) ^ 8 := uni_ncoeffs (by omega)
+    rw [this]
+  refine ⟨hc, hn, ?_, ?_⟩
+  · unfold ncoeffsW
+    rw [hn]; exact Nat.mod_self _
+  · cases h : NoWrapB wWrap with
+    | false => rfl
+    | true =>
+      have := ((noWrapB_iff _).mp h).2.2
+      rw [hn] at this
+      simp [I64] at this
+
+/-- `NoWrapB` holds for the consistent example of this file; the safety theorem applies to it -/
+example : NoWrapB good = true ∧ fitBodyW repaired good = .ok := by
+  have hwf : good.data.WF := ⟨rfl, rfl, by decide⟩
+  have hc : fitChecks repaired good = .ok := by decide
+  have hw : NoWrapB good = true := by decide
+  exact ⟨hw, accepted_noWrap_imply_safeW _ hwf hc hw⟩
+
+/-! ## The whole member function: occupied table, failure after the sanity block
+
+`fitEntry c h a x t` is `splinetable::fit` from its first to its last statement (Model/FitEntry.lean); `head` = the code
+in /repo (refuses a populated table, `storage_guard`), `upstream` = without the two C20 repairs. -/
+
+/-- **entry_occupied_refused** (C20's "fit refuses an occupied table", for every argument tuple, valid or not). -/
+theorem entry_occupied_refused (c : Cfg) (a : Args) (x : Ext) (s : Shape) :
+    fitEntry c head a x (some s) = (.occupied, some s) := by
+  simp [fitEntry, head]
+
+/-- **entry_failure_leaves_unchanged.**  At HEAD *every* call that does not succeed — occupied table, argument error,
+    allocation failure, GLAM failure — leaves the table exactly as it was (model state equality), whatever the code
+    of the sanity block (`c`) is. -/
+theorem entry_failure_leaves_unchanged (c : Cfg) (a : Args) (x : Ext) (t : Tbl)
+    (hne : (fitEntry c head a x t).1 ≠ .ok) (hnf : (fitEntry c head a x t).1.isFault = false) :
+    (fitEntry c head a x t).2 = t := by
+  cases t with
+  | some s => rw [entry_occupied_refused]
+  | none =>
+    unfold fitEntry at hne hnf ⊢
+    simp only [head, Option.isSome_none, Bool.and_false, Bool.false_eq_true, if_false] at hne hnf ⊢
+    cases hc : fitChecks c a with
+    | reject e => rfl
+    | fault f => rfl
+    | ok =>
+      simp only [hc] at hne hnf ⊢
+      cases hb : fitBodyW c a with
+      | reject e => exact absurd hb (noRej_fitBodyW c a e)
+      | fault f => simp [hb, Verdict.isFault] at hnf
+      | ok =>
+        simp only [hb] at hne ⊢
+        cases x with
+        | done => simp at hne
+        | badAlloc => rfl
+        | glamFailed => rfl
+
+/-- **entry_never_faults** — `fit_never_faults` for the whole member function and with the integer widths, under the
+    decidable size condition instead of `SizesFit`. -/
+theorem entry_never_faults (h : Head) (a : Args) (hwf : a.data.WF) (hw : NoWrapB a = true) (x : Ext) (t : Tbl) :
+    (fitEntry repaired h a x t).1.isFault = false := by
+  unfold fitEntry
+  split
+  · rfl
+  · cases hc : fitChecks repaired a with
+    | reject e => rfl
+    | fault f => have := checks_never_fault a hwf; rw [hc] at this; simp [Out.isFault] at this
+    | ok =>
+      simp only
+      rw [accepted_noWrap_imply_safeW a hwf hc hw]
+      cases x <;> rfl
+
+/-- **entry_ok_iff.**  The call succeeds exactly when the table is empty, the arguments are consistent and nothing
+    external fails; the table is then the one `fitShape` describes. -/
+theorem entry_ok_iff (a : Args) (hwf : a.data.WF) (hw : NoWrapB a = true) (x : Ext) (t : Tbl) :
+    (fitEntry repaired head a x t).1 = .ok ↔ (t = none ∧ Needs a ∧ x = .done) := by
+  constructor
+  · intro hok
+    cases t with
+    | some s => rw [entry_occupied_refused] at hok; cases hok
+    | none =>
+      unfold fitEntry at hok
+      simp only [head, Option.isSome_none, Bool.and_false, Bool.false_eq_true, if_false] at hok
+      cases hc : fitChecks repaired a with
+      | reject e => simp [hc] at hok
+      | fault f => simp [hc] at hok
+      | ok =>
+        refine ⟨rfl, checks_imply_needs a hc, ?_⟩
+        simp only [hc, accepted_noWrap_imply_safeW a hwf hc hw] at hok
+        cases x <;> simp_all
+  · rintro ⟨rfl, hn, rfl⟩
+    have hc := needs_imply_checks a hwf hn
+    simp [fitEntry, head, hc, needs_noWrap_imply_safeW a hwf hn hw]
+
+theorem entry_ok_table (a : Args) (hwf : a.data.WF) (hw : NoWrapB a = true) (hn : Needs a) :
+    fitEntry repaired head a .done none = (.ok, some (fitShape a)) := by
+  have hc := needs_imply_checks a hwf hn
+  simp [fitEntry, head, hc, needs_noWrap_imply_safeW a hwf hn hw, noWrap_shape_eq a hn hw]
+
+/-- **entry_solver_failure_leaves_empty** (the failure paths behind the sanity block).  Consistent arguments on an
+    empty table, and an allocation or `glamfit_complex` fails: the caller gets `bad_alloc` resp. "GLAM fit failed",
+    and the table is empty again — no half-built table is ever observable at HEAD. -/
+theorem entry_solver_failure_leaves_empty (a : Args) (hwf : a.data.WF) (hw : NoWrapB a = true) (hn : Needs a) :
+    fitEntry repaired head a .badAlloc none = (.badAlloc, none) ∧
+    fitEntry repaired head a .glamFailed none = (.glam, none) := by
+  have hc := needs_imply_checks a hwf hn
+  constructor <;> simp [fitEntry, head, hc, needs_noWrap_imply_safeW a hwf hn hw]
+
+/-- **entry_inconsistent_rejected.**  Inconsistent arguments on an empty table: a `std::logic_error` of the sanity
+    block, whatever would have happened later, and the table stays empty. -/
+theorem entry_inconsistent_rejected (h : Head) (a : Args) (hwf : a.data.WF) (x : Ext) (hn : ¬ Needs a) :
+    ∃ e, e ≠ Err.glam ∧ fitEntry repaired h a x none = (.arg e, none) := by
+  obtain ⟨e, he, hf⟩ := inconsistent_rejected a hwf true none hn
+  refine ⟨e, he, ?_⟩
+  unfold fit at hf
+  cases hc : fitChecks repaired a with
+  | ok => rw [hc] at hf; simp only at hf; split at hf <;> simp_all
+  | fault f => rw [hc] at hf; simp at hf
+  | reject e' =>
+    rw [hc] at hf
+    have : e' = e := by simpa using hf
+    subst this
+    simp [fitEntry, hc]
+
+/-- Link to the definitions of the first part: on an empty table, under the size condition, `fitEntry` without the two
+    C20 repairs is `fit` (verdicts renamed), so every theorem about `fit repaired` speaks about the entry point. -/
+theorem entry_upstream_eq_fit (a : Args) (hwf : a.data.WF) (hw : NoWrapB a = true) (x : Ext) (t : Tbl) :
+    fitEntry repaired upstream a x t =
+      (match (fit repaired a (decide (x = .done)) t).1 with
+        | .ok => .ok
+        | .reject .glam => (if x = .badAlloc then .badAlloc else .glam)
+        | .reject e => .arg e
+        | .fault f => .fault f,
+       (fit repaired a (decide (x = .done)) t).2) := by
+  unfold fitEntry fit
+  simp only [upstream, Bool.false_and, Bool.false_eq_true, if_false]
+  cases hc : fitChecks repaired a with
+  | reject e =>
+    simp only
+    have : e ≠ .glam := by
+      intro he; subst he
+      by_cases hn : Needs a
+      · rw [needs_imply_checks a hwf hn] at hc; cases hc
+      · obtain ⟨e', he', hf⟩ := inconsistent_rejected a hwf true none hn
+        simp [fit, hc] at hf; exact he' hf.symm
+    cases e <;> simp_all
+  | fault f => rfl
+  | ok =>
+    have hn := checks_imply_needs a hc
+    simp only [needs_noWrap_imply_safeW a hwf hn hw, needs_imply_safe a hwf (noWrap_imply_sizesFit a hw) hn,
+      noWrap_shape_eq a hn hw]
+    cases x <;> simp
+
+/-- The C wrapper on top of the entry point: non-zero exactly when a handle is null or the call did not succeed … -/
+theorem cwrapperEntry_nonzero_iff (c : Cfg) (h : Head) (tableNull dataNull : Bool) (ca : CArgs) (x : Ext) (t : Tbl) :
+    (cGlamfitEntry c h tableNull dataNull ca x t).1 ≠ 0 ↔
+      (tableNull = true ∨ dataNull = true ∨ (fitEntry c h ca.view x t).1 ≠ .ok) := by
+  unfold cGlamfitEntry
+  cases tableNull <;> cases dataNull <;> simp
+  cases hf : fitEntry c h ca.view x t with
+  | mk o t' => cases o <;> simp
+
+/-- … and at HEAD a non-zero return (that is not a memory fault) leaves the table behind the handle unchanged, for
+    every reason of failure. -/
+theorem cwrapperEntry_failure_unchanged (c : Cfg) (tableNull dataNull : Bool) (ca : CArgs) (x : Ext) (t : Tbl)
+    (hnz : (cGlamfitEntry c head tableNull dataNull ca x t).1 ≠ 0)
+    (hnf : (fitEntry c head ca.view x t).1.isFault = false) :
+    (cGlamfitEntry c head tableNull dataNull ca x t).2 = t := by
+  have hiff := (cwrapperEntry_nonzero_iff c head tableNull dataNull ca x t).mp hnz
+  unfold cGlamfitEntry at hnz ⊢
+  by_cases hnull : (tableNull || dataNull) = true
+  · simp [hnull]
+  · have hn' : tableNull = false ∧ dataNull = false := by
+      cases tableNull <;> cases dataNull <;> simp_all
+    have hne : (fitEntry c head ca.view x t).1 ≠ .ok := by
+      rcases hiff with h | h | h
+      · simp [hn'.1] at h
+      · simp [hn'.2] at h
+      · exact h
+    have := entry_failure_leaves_unchanged c ca.view x t hne hnf
+    simp only [hn'.1, hn'.2, Bool.or_self, Bool.false_eq_true, if_false]
+    cases hf : fitEntry c head ca.view x t with
+    | mk o t' =>
+      rw [hf] at this
+      cases o <;> simpa using this
+
+/-- Without the two C20 repairs: a populated table is overwritten (its storage leaks, C20), and a GLAM failure leaves
+    the new, unusable table behind. -/
+theorem upstream_entry_witnesses :
+    fitEntry repaired upstream good .done (some (fitShape wOrderZero)) = (.ok, some (fitShape good)) ∧
+    fitEntry repaired upstream good .glamFailed none = (.glam, some (fitShape good)) ∧
+    fitEntry repaired head good .glamFailed none = (.glam, none) ∧
+    fitEntry repaired head good .done (some (fitShape wOrderZero)) = (.occupied, some (fitShape wOrderZero)) := by
+  decide
+
+/-- non-vacuity of the entry-point theorems: `good` satisfies their hypotheses, `wPenalty` is inconsistent -/
+example : good.data.WF ∧ NoWrapB good = true ∧ Needs good ∧ ¬ Needs wPenalty ∧
+    (fitEntry repaired head wPenalty .done (some (fitShape good))).1 ≠ .ok ∧
+    (cGlamfitEntry repaired head false false ⟨good.data, [2, 0], good.knots, [true, true], [0, 3], 1⟩ .done none).1 ≠ 0 := by
+  refine ⟨⟨rfl, rfl, by decide⟩, by decide, checks_imply_needs _ (by decide), fun h => ?_, by decide, by decide⟩
+  have := h.pen_le 0 (by decide)
+  revert this; decide
 
 end PsV.Fit
